@@ -71,7 +71,18 @@ func tmplFields(mode string, li int) []refipfix.Field {
 
 func badTemplate(r *rand.Rand, mode string, dom uint32, tid uint16, variant int) []byte {
 	f := tmplFields(mode, r.IntN(len(layouts)))
-	switch variant % 3 {
+	switch variant % 4 {
+	case 3: // not bad at all, but a template the library need not support: a registry element that is variable-length
+		// (vfOctetsVar / sourcePodName) announced with a fixed length. Whatever the collector makes of it for THIS
+		// key (the model marks it gray), every other key that uses the same element must be unaffected.
+		li := []int{1, 3}[r.IntN(2)]
+		f = tmplFields(mode, li)
+		for i := range f {
+			if f[i].Len == refipfix.VarLen {
+				f[i].Len = uint16(4 + r.IntN(9))
+			}
+		}
+		return refipfix.BuildMessage(dom, 0, 1, 2, refipfix.EncodeTemplateRecord(tid, f))
 	case 0: // truncated inside the specifier list (after the 4-byte record header)
 		m := refipfix.BuildMessage(dom, 0, 1, 2, refipfix.EncodeTemplateRecord(tid, f))
 		cut := 24 + r.IntN(len(m)-24)
@@ -177,6 +188,15 @@ func (rn *runner) run(k int, r *rand.Rand, keys []key, word []sym, rawBodies boo
 		case "T", "X":
 			mustAccept = effect == "set"
 			reason = "template effect " + effect
+			if l := model[mirror.Key{Domain: kk.dom, TID: kk.tid}]; effect == "set" && l != nil && l.Gray {
+				// reduced-size / fixed-length announcement of a registry element: the library may refuse it, and then
+				// the older template of the key is gone like after any template that fails to decode
+				free = true
+				if derr != nil {
+					delete(model, mirror.Key{Domain: kk.dom, TID: kk.tid})
+				}
+				c.Add("gray_templates_presented", 1)
+			}
 			if effect == "delete" && mirror.UnsupportedOnly(reg, rn.mode, msg) {
 				// the only defect is a registry element of a type the library cannot decode, in a lenient mode: a
 				// collector may carry it as opaque octets instead of refusing. Whatever it did is the new truth
@@ -191,8 +211,8 @@ func (rn *runner) run(k int, r *rand.Rand, keys []key, word []sym, rawBodies boo
 			l, ok := before[mirror.Key{Domain: kk.dom, TID: kk.tid}]
 			if !ok {
 				reason = "no valid template in force for this (domain,id)"
-			} else if l.Opaque {
-				free = true
+			} else if l.Opaque || l.Gray {
+				free = true // (Judge does not judge exactness for a gray layout either)
 			} else if _, pad, okp, why := refipfix.SplitRecords(msg[20:], l.Widths); !okp {
 				reason = "body does not split under the template in force: " + why
 			} else if !refipfix.SameBody(msg[len(msg)-pad:], nil, pad+1) {
@@ -371,7 +391,7 @@ func main() {
 			for i := 0; i < depth; i++ {
 				s := alpha[x%len(alpha)]
 				if s.kind == "X" {
-					s.lay = (x + i) % 3 // bad-template variant
+					s.lay = (x + i) % 4 // bad-template variant (3: a gray one)
 				}
 				word = append(word, s)
 				x /= len(alpha)
@@ -396,7 +416,7 @@ func main() {
 				case x < 3:
 					s.kind, s.lay = "T", r.IntN(len(layouts))
 				case x < 5:
-					s.kind, s.lay = "X", r.IntN(3)
+					s.kind, s.lay = "X", r.IntN(4)
 				default:
 					s.kind, s.lay = "D", r.IntN(len(layouts))
 				}
